@@ -210,7 +210,7 @@ class Gen:
         return out
 
     # ---- declarations ------------------------------------------------------------------------
-    def model(self, includes=(), n_decls=None):
+    def model(self, includes=(), n_decls=None, extra_kinds=()):
         """includes: list of (include value bytes, env-of-that-file) this file may refer to"""
         rng = self.rng
         env = {"types": [], "consts": [], "exceptions": [], "services": [], "enums": []}
@@ -234,7 +234,7 @@ class Gen:
         # pre-declare type names so that declarations can refer to each other in any order
         n = n_decls if n_decls is not None else max(1, int(rng.randrange(1, 9) * self.size))
         kinds = [rng.choice(["typedef", "const", "enum", "struct", "struct", "exception", "union", "service", "scope"])
-                 for _ in range(n)]
+                 for _ in range(n)] + list(extra_kinds)
         names = []
         for k in kinds:
             if k in ("typedef", "enum", "struct", "exception", "union"):
